@@ -2,6 +2,7 @@ package checks
 
 import (
 	"fmt"
+	"time"
 
 	pt "github.com/weedbox/pokertable"
 
@@ -292,6 +293,10 @@ func c02Live() func(p *Play, e *h.Ev) {
 			})
 			return
 		}
+		if t.State.GameCount == gc && t.State.GameState != nil && roster != nil && len(t.State.GameState.Players) != len(roster) {
+			p.C.Violate("C02/hand-entries-differ-from-list", fmt.Sprintf("hand %d: the hand engine plays %d entries, the hand's player list has %d (%v)", p.HandNo, len(t.State.GameState.Players), len(roster), roster), p.witness())
+			return
+		}
 		if t.State.GameCount == gc && t.State.GameState != nil && roster != nil &&
 			(t.State.Status == pt.TableStateStatus_TableGamePlaying || t.State.Status == pt.TableStateStatus_TableGameSettled) {
 			for i := range roster {
@@ -302,6 +307,75 @@ func c02Live() func(p *Play, e *h.Ev) {
 			}
 		}
 	}
+}
+
+// c02ZeroChipPlayer: a seated-in player without chips whom the seat manager considers live (0-chip buy-in or
+// 0-chip re-buy). Either the hand is refused, or every entry still denotes its player with its own stack.
+func c02ZeroChipPlayer(c *h.Ctx) {
+	r := c.R
+	cfg := h.GenTable(r, h.GenOpts{MinSeats: 3, MaxSeats: 7, MinPlayers: 3, DeepOnly: true, Modes: []string{"ct", "cash"}, Rules: []string{"default"}})
+	zero := r.Intn(len(cfg.Players))
+	cfg.Players[zero].Chips = 0
+	rig := h.NewRigBackend()
+	s, err := h.NewSim(h.SimConfig{Setting: cfg.Setting(false), Interval: 0, Backend: rig}, r.Int63())
+	if err != nil {
+		c.Inconclusive(err.Error())
+		return
+	}
+	for _, pl := range cfg.Players {
+		if err := s.Seat(pl.ID, pl.Seat, pl.Chips); err != nil {
+			c.Inconclusive("seat: " + err.Error())
+			return
+		}
+	}
+	s.TE.StartTableGame()
+	e, ok := s.WaitFor(5*time.Second, func(e *h.Ev) bool { return e.Kind == h.EvSetup }, nil)
+	if !ok {
+		c.Inconclusive("no set-up")
+		return
+	}
+	s.SignalAll(h.SetupIDs(e.Setup))
+	var opened, playing *h.Ev
+	refused := false
+	s.WaitFor(6*time.Second, func(e *h.Ev) bool {
+		if e.Kind == h.EvError {
+			refused = true
+		}
+		if e.Kind == h.EvTable && e.T != nil {
+			if e.T.State.Status == pt.TableStateStatus_TableGameOpened && opened == nil {
+				opened = e
+			}
+			if e.T.State.GameState != nil && playing == nil {
+				playing = e
+			}
+		}
+		return refused || playing != nil
+	}, nil)
+	w := map[string]interface{}{"cfg": cfg, "zero_chip_player": cfg.Players[zero].ID, "trace": s.TraceTail(25)}
+	if playing != nil && opened != nil {
+		t := opened.T
+		var roster []string
+		for _, pi := range t.State.GamePlayerIndexes {
+			roster = append(roster, t.State.PlayerStates[pi].PlayerID)
+		}
+		gs := playing.T.State.GameState
+		if len(gs.Players) != len(roster) {
+			c.Violate("C02/hand-entries-differ-from-list", fmt.Sprintf("a seated-in player without chips is dealt in: the hand's list has %d entries %v, the hand engine plays %d", len(roster), roster, len(gs.Players)), w)
+			return
+		}
+		for i, pl := range gs.Players {
+			if b, ok := bankOf(t, roster[i]); ok && pl.Bankroll != b {
+				c.Violate("C02/start-stack/not-the-entrys-bankroll", fmt.Sprintf("entry %d (%s) starts with %d, bankroll at open %d", i, roster[i], pl.Bankroll, b), w)
+				return
+			}
+		}
+		c.Feature("zero-chip-player:hand-opened")
+	} else {
+		c.Feature("zero-chip-player:hand-refused")
+	}
+	c.Nontrivial()
+	c.FP("zero-chip", fmt.Sprintf("%+v", cfg))
+	c.Sample(map[string]interface{}{"kind": "seated-in player with 0 chips", "cfg": cfg, "hand_refused": refused})
 }
 
 func seatsOf(t *pt.Table, ids []string) []int {
@@ -327,7 +401,7 @@ func init() {
 			return 256
 		},
 		MinNontrivial:    func(tier string) int { return map[string]int{"quick": 80, "thorough": 1200}[tier] },
-		RequiredFeatures: func(string) []string { return []string{"roster-not-identity", "dead-button", "dead-sb", "short-deck-hand", "membership-change-mid-hand:buyin", "membership-change-mid-hand:leave"} },
+		RequiredFeatures: func(string) []string { return []string{"roster-not-identity", "dead-button", "dead-sb", "short-deck-hand", "membership-change-mid-hand:buyin", "membership-change-mid-hand:leave", "zero-chip-player:hand-refused"} },
 		CaseTimeout:      180e9,
 		Run: func(c *h.Ctx) {
 			po := PlayOpts{
@@ -343,8 +417,36 @@ func init() {
 				po.Policies = []string{"maniac", "callstation", "random"}
 				po.Decks = []string{"rank", "seeded"}
 			}
+			if c.Case%16 == 5 {
+				c02ZeroChipPlayer(c)
+				return
+			}
 			live := c02Live()
-			p := RunPlay(c, po, &PlayMon{AfterHand: c02AfterHand, OnEvent: live})
+			probe := func(p *Play, e *h.Ev, gp int, pid string) bool {
+				// somebody else submits an action for this turn: it must not be accepted for the entry in turn
+				if p.R().Intn(3) != 0 || p.C.Failed() {
+					return true
+				}
+				t := e.T
+				var others []string
+				for i := range t.State.GamePlayerIndexes {
+					if id := h.PidOf(t, i); id != pid {
+						others = append(others, id)
+					}
+				}
+				if len(others) == 0 {
+					return true
+				}
+				who := others[p.R().Intn(len(others))]
+				act := []string{"fold", "call", "check", "allin"}[p.R().Intn(4)]
+				if err := h.DoAction(p.SS.S.TE, who, act, 0); err == nil {
+					p.C.Violate("C02/action-of-another-player-applied-to-entry", fmt.Sprintf("hand %d: it is %s's turn (entry %d); %s submitted %s and it was accepted", p.HandNo, pid, gp, who, act), p.witness())
+					return false
+				}
+				p.C.Count("out_of_turn_probes", 1)
+				return true
+			}
+			p := RunPlay(c, po, &PlayMon{AfterHand: c02AfterHand, OnEvent: live, BeforeAct: probe})
 			if p == nil {
 				return
 			}
